@@ -50,6 +50,9 @@ type SCase struct {
 	OnlyTorn2 int    `json:"only_torn2"`
 	ValMode   int    `json:"val_mode,omitempty"`  // 0 unique attributable values, 1 codec-boundary values (C07)
 	ValSeed   uint64 `json:"val_seed,omitempty"`
+	TimeMode  int    `json:"time_mode,omitempty"` // val_mode 2: how the 24 time slots map to timestamps (s_codec.go)
+	NSlots    int    `json:"nslots,omitempty"`    // val_mode 2: time slots that dense writes use (0 = sNumTimes)
+	NoNegZero bool   `json:"no_negzero,omitempty"` // val_mode 2: no -0.0 among the float values (set with the MLF float compressor: finding C07-mlf-negative-zero)
 	MaxWalRec int    `json:"max_wal_rec,omitempty"`  // CrashOps "wal": at most this many log records are torn (0 = all)
 	TornPer   int    `json:"torn_per,omitempty"`     // CrashOps "wal": prefixes tried per record (0 = every prefix)
 }
@@ -97,8 +100,7 @@ func (worldS) Gen(r *core.Rand, env *core.Env) SCase {
 		c.ReadEvery = false
 		c.Knobs.Partitions = 1
 	case "C07":
-		c.ValMode = 1
-		c.ValSeed = r.Uint64()
+		genCodecCase(r, &c)
 		c.Knobs.Partitions = 1 // the WAL partition order defect (C01) must not mask codec defects
 		c.ReadEvery = true
 		if r.Bool(0.5) {
@@ -152,6 +154,17 @@ func (worldS) Gen(r *core.Rand, env *core.Env) SCase {
 		c.Ops = append(c.Ops, SOp{K: "w", ID: wid, Rows: []SRow{{M: m, S: 1, T: r.Intn(hi), F: 15}}}, SOp{K: "flush"}, SOp{K: "merge", Force: true})
 		flushes += 2
 	}
+	if c.ValMode == 2 && r.Bool(map[bool]float64{false: 0.7, true: 0.3}[c.Crash]) {
+		// every column of one measurement filled over all time slots (one row in eight lacks a field), then flushed:
+		// each column pattern of the case meets blocks of every length the segment size allows, with and without nulls
+		m := r.Intn(c.NMst)
+		for s := 0; s < c.NSeries; s++ {
+			wid++
+			c.Ops = append(c.Ops, SOp{K: "w", ID: wid, Rows: genCodecColumnFill(r, &c, m, s)})
+		}
+		c.Ops = append(c.Ops, SOp{K: "flush"})
+		flushes++
+	}
 	for i := 0; i < nops; i++ {
 		if i == bigAt {
 			wid++
@@ -193,6 +206,11 @@ func (worldS) Gen(r *core.Rand, env *core.Env) SCase {
 			if r.Intn(5) == 0 || (env.Property == "C07" && r.Bool(0.5)) {
 				n = r.Range(6, 30)
 			}
+			if c.ValMode == 2 && r.Bool(0.5) {
+				op.Rows = genCodecDenseWrite(r, &c, core.Pick(r, liveMst()))
+				c.Ops = append(c.Ops, op)
+				continue
+			}
 			// late data: older than what is already flushed, with some probability
 			for j := 0; j < n; j++ {
 				row := SRow{M: core.Pick(r, liveMst()), S: r.Intn(c.NSeries), T: r.Intn(sNumTimes)}
@@ -215,12 +233,27 @@ func (worldS) Gen(r *core.Rand, env *core.Env) SCase {
 		case 3:
 			c.Ops = append(c.Ops, SOp{K: "fullcompact"})
 		case 4:
-			c.Ops = append(c.Ops, SOp{K: "merge", Force: r.Bool(0.7)})
+			force := r.Bool(0.7)
+			if c.ValMode == 2 && c.Knobs.RowsPerSegment%8 != 0 && !codecNoSidestep("merge") {
+				// finding C07-merge-panics-segment-rows-not-multiple-of-8: the out-of-order merge panics on a background
+				// goroutine (the store process dies) when max-rows-per-segment is not a multiple of 8; such cases reorganise
+				// through compaction only, so that the defect does not kill the workers of every C07 run
+				c.Ops = append(c.Ops, SOp{K: "compact", Level: 0})
+				continue
+			}
+			c.Ops = append(c.Ops, SOp{K: "merge", Force: force})
 		case 5:
 			c.Ops = append(c.Ops, SOp{K: "reopen"})
 		}
 	}
 	return c
+}
+
+func (c SCase) nslots() int {
+	if c.NSlots > 0 {
+		return c.NSlots
+	}
+	return sNumTimes
 }
 
 func (worldS) NumOps(c SCase) int { return len(c.Ops) }
@@ -295,6 +328,27 @@ func (worldS) Simplify(c SCase) []SCase {
 		n.Knobs.ChunkSize = 1024
 		out = append(out, n)
 	}
+	// C07 encoder settings back to their defaults, regular timestamps
+	if c.Knobs.StrAlgo != 0 {
+		n := cloneSCase(c)
+		n.Knobs.StrAlgo = 0
+		out = append(out, n)
+	}
+	if c.Knobs.FloatMLF {
+		n := cloneSCase(c)
+		n.Knobs.FloatMLF = false
+		out = append(out, n)
+	}
+	if c.Knobs.ChunkMetaMode != 0 {
+		n := cloneSCase(c)
+		n.Knobs.ChunkMetaMode = 0
+		out = append(out, n)
+	}
+	if c.TimeMode != 0 {
+		n := cloneSCase(c)
+		n.TimeMode = 0
+		out = append(out, n)
+	}
 	if c.NSeries > 1 || c.NMst > 1 {
 		// map everything to series 0 / measurement 0 if the failure survives
 		n := cloneSCase(c)
@@ -362,6 +416,7 @@ type sRun struct {
 	ackPos map[[2]int]int // (incarnation, op) -> journal length when the op returned
 	seen   map[[2]int]bool // (measurement, series) already written
 	cellGens map[cellKey]map[int64]bool // flush generations in which a (series, timestamp) was written
+	encSeen map[string]bool // C07: data files whose blocks were already classified (encoder-mode reach probe)
 }
 
 func sviol(prop, kind, detail string, attrs map[string]string) *core.Violation {
@@ -375,7 +430,12 @@ func (w worldS) Exec(c SCase, env *core.Env) *core.Outcome {
 		prop = c.Prop
 	}
 	sValMode, sValSeed = c.ValMode, c.ValSeed
-	defer func() { sValMode, sValSeed = 0, 0 }()
+	if c.ValMode == 2 {
+		sTimeTab = codecTimeTable(c.TimeMode, c.ValSeed, c.nslots())
+		sNoNegZero = c.NoNegZero
+		sFloatMLF = c.Knobs.FloatMLF
+	}
+	defer func() { sValMode, sValSeed, sTimeTab, sNoNegZero, sFloatMLF = 0, 0, nil, false, false }()
 	fs := simfs.Install()
 	run := &sRun{c: c, env: env, out: out, fs: fs, model: newSModel(), r: core.NewRand(c.ReadSeed), prop: prop, ackPos: map[[2]int]int{}, seen: map[[2]int]bool{}}
 	defer run.cleanup()
@@ -402,6 +462,9 @@ func (w worldS) Exec(c SCase, env *core.Env) *core.Outcome {
 			return out
 		}
 		out.Stats["ops"]++
+		if run.prop == "C07" && op.K != "reopen" && op.K != "dropm" {
+			run.encProbe()
+		}
 		if run.prop == "C09" {
 			if v := aggChecks(run.env, run.node.sh, run.model, c, run.r, out, run.prop, i, op.K, 6, run.multiGen); v != nil {
 				v.Attrs = mergeAttrsS(v.Attrs, map[string]string{"op": op.K, "phase": "live"})
@@ -545,6 +608,9 @@ func (run *sRun) step(i int, op SOp) *core.Violation {
 		dec, _, _, _, _, err := influx.FastUnmarshalMultiRows(bin, nil, nil, nil, nil, nil)
 		if err != nil {
 			return sviol(run.prop, "wire_decode_error", fmt.Sprintf("op %d: the marshalled batch does not decode: %v", i, err), nil)
+		}
+		if run.prop == "C07" {
+			wireProbe(out, rows)
 		}
 		before := run.flushCount()
 		err = sh.WriteRows(dec, bin)
@@ -739,7 +805,8 @@ func readChecksOn(sh *shard, model *sModel, c SCase, r *core.Rand, out *core.Out
 				}
 			}
 			// range with ends inside / on the edge of / outside the data
-			a, b := r.Intn(sNumTimes+4)-2, r.Intn(sNumTimes+4)-2
+			nt := c.nslots() // (sNumTimes except for C07 cases with long columns)
+			a, b := r.Intn(nt+4)-2, r.Intn(nt+4)-2
 			if a > b {
 				a, b = b, a
 			}
@@ -777,8 +844,14 @@ func checkSelect(sh *shard, model *sModel, q *sQuery, out *core.Outcome, prop st
 	if relax != nil {
 		got, want = applyRelax(got, want, relax, q)
 	}
-	kind, detail := compareDump(got, want, q.Desc, model, q.Mst)
+	kind, detail, xa := compareDumpX(got, want, q.Desc, model, q.Mst)
 	if kind != "" {
+		for k, v := range xa {
+			at[k] = v
+		}
+		if sValMode == 2 && sFloatMLF {
+			at["float_algo"] = "mlf"
+		}
 		// diagnostic only: does the same query on the same state answer the same again?
 		got2, _, err2 := selectRows(sh, q)
 		if err2 == nil {
@@ -787,7 +860,7 @@ func checkSelect(sh *shard, model *sModel, q *sQuery, out *core.Outcome, prop st
 			at["repeat"] = k2
 		}
 		detail += "\n  files: " + fileLayout(sh, q.Mst)
-		return sviol(prop, kind, fmt.Sprintf("after op %d (%s): %s\n  query: %s [t%d..t%d]", i, after, detail, q.text(), (q.TMin-sBaseTime)/sStep, (q.TMax-sBaseTime)/sStep), at)
+		return sviol(prop, kind, fmt.Sprintf("after op %d (%s): %s\n  query: %s [t%d..t%d]", i, after, detail, q.text(), sSlot(q.TMin), sSlot(q.TMax)), at)
 	}
 	return nil
 }
@@ -843,9 +916,10 @@ func applyRelax(got, want map[string][]sDumpRow, relax *sRelax, q *sQuery) (map[
 							row[f] = gv
 						} else if relax.anyVersion && relax.pre.classifyM(q.Mst, s, t, f, gv) == "stale_value" {
 							row[f] = gv
-						} else if okb {
+						} else if okb && !(oka && negZeroLost(va, gv)) {
 							row[f] = vb
 						} else {
+							// (neither value was read: the violation names the older one if the value read is its -0.0 without the sign)
 							row[f] = va
 						}
 					} else if oka && okb {
@@ -924,7 +998,7 @@ func fileLayout(sh *shard, m int) string {
 		for _, f := range files.Files() {
 			l, sq := f.LevelAndSequence()
 			mn, mx, _ := f.MinMaxTime()
-			fmt.Fprintf(&b, "[%s %s L%d seq%d t%d..t%d] ", map[bool]string{true: "ordered", false: "unordered"}[order], filepath.Base(f.Path()), l, sq, (mn-sBaseTime)/sStep, (mx-sBaseTime)/sStep)
+			fmt.Fprintf(&b, "[%s %s L%d seq%d t%d..t%d] ", map[bool]string{true: "ordered", false: "unordered"}[order], filepath.Base(f.Path()), l, sq, sSlot(mn), sSlot(mx))
 		}
 		immutable.UnrefFilesReader(files.Files()...)
 		immutable.UnrefFiles(files.Files()...)
